@@ -27,4 +27,24 @@ theorem redacted_eq_of_redactAll_eq {red : List Path} {rt : Cfg → Option Cfg} 
   unfold redacted
   simp only [h]
 
+/-! ### memory model: arrays allocated before the call are not written -/
+
+theorem stepList_old (red : List Path) (st : Store × CfgVal) (i : Nat) (x : Nat) (hx : x < st.1.next) :
+    (stepList red true st i).1.arrays x = st.1.arrays x ∧ st.1.next ≤ (stepList red true st i).1.next := by
+  obtain ⟨m, cp⟩ := st
+  simp only [stepList, if_true, Store.clone, Store.redactArray]
+  constructor
+  · have h1 : x ≠ m.next := by simp at hx; omega
+    simp [h1]
+  · simp
+
+theorem foldl_old (red : List Path) (detach : Nat → Bool) (is : List Nat) (hd : ∀ i ∈ is, detach i = true)
+    (st : Store × CfgVal) (x : Nat) (hx : x < st.1.next) :
+    (is.foldl (fun st i => stepList red (detach i) st i) st).1.arrays x = st.1.arrays x := by
+  induction is generalizing st with
+  | nil => rfl
+  | cons i rest ih =>
+    have s := stepList_old red st i x hx
+    rw [List.foldl_cons, hd i (by simp), ih (fun j hj => hd j (by simp [hj])) _ (by omega), s.1]
+
 end MM.C35
